@@ -287,7 +287,9 @@ def run(res, replay=None):
     r = e2v.rng(seed, "c20sweep")
     cfgs = ["S 1 0 0 0 0 0 32 3 10 1 8192 1024 %d" % (70000 if tier == "thorough" else 20000),
             "S 0 0 0 0 0 0 32 2 0 0 32768 4096 300", "S 1 1 1 37 0 0 64 3 0 0 32768 4096 200",
-            "S 1 0 0 0 1 0 32 5 0 1 256 1024 700", "S 1 0 0 0 1 2 64 9 3 0 1024 2048 900"]
+            "S 1 0 0 0 1 0 32 5 0 1 256 1024 700", "S 1 0 0 0 1 2 64 9 3 0 1024 2048 900",
+            # 1k-block bigalloc (block 0 outside the metadata): old-style descriptors only, meta_bg from block 0, meta_bg from block 2
+            "S 1 0 0 0 0 0 64 3 0 0 8192 1024 38 1", "S 1 0 0 0 1 0 64 5 0 0 8192 1024 70 1", "S 1 0 0 0 1 2 64 6 0 0 8192 1024 90 1"]
     for _ in range(30 if tier == "quick" else 400):
         bs = r.choice([1024, 2048, 4096, 65536])
         ds = r.choice([32, 64])
@@ -295,10 +297,13 @@ def run(res, replay=None):
         sp2 = r.random() < 0.25
         mb = r.random() < 0.4
         dpb = bs // ds
-        cfgs.append("S %d %d %d %d %d %d %d %d %d %d %d %d %d" % (
+        fdb = 1 if bs == 1024 and r.random() < 0.7 else 0
+        cfgs.append("S %d %d %d %d %d %d %d %d %d %d %d %d %d %d" % (
             r.randint(0, 1), 1 if sp2 else 0, r.randint(0, ng), r.randint(0, ng), 1 if mb else 0,
             r.randint(0, (ng + dpb - 1) // dpb) if mb else 0, ds, (ng + dpb - 1) // dpb, r.randint(0, 40),
-            1 if bs == 1024 and r.random() < 0.8 else 0, r.choice([256, 1024, 8 * bs]), bs, ng))
+            fdb, r.choice([256, 1024, 8 * bs]), bs, ng,
+            # 1k blocks: s_first_data_block is 0 exactly on bigalloc filesystems (e2fsck's PR_0_FIRST_DATA_BLOCK); larger blocks: either
+            (1 if fdb == 0 else 0) if bs == 1024 else r.randint(0, 1)))
     l2 = ["L2 %d %d %d 5" % (a, b, g) for a, b, g in [(0, 0, 9), (1, 0, 9), (0, 7, 9), (1, 8, 9), (3, 3, 4), (1, 1, 2), (0, 1, 2)]] + \
          ["L2 %d %d %d 6" % (r.choice([0, r.randint(1, 50)]), r.choice([0, r.randint(1, 50)]), r.randint(2, 60)) for _ in range(20)]
     text = "\n".join(cfgs) + "\nL 46\n" + "\n".join(l2) + "\n"
